@@ -334,7 +334,30 @@ func genHugePool(g *Kern, r *Rng, tier string) {
 }
 
 // genHugeLength: Len / Length / Capacity around 2^24 and 2^25 samples while samples are appended one by one (C04)
+// wideLength: Len / Length / Capacity of buffers with 2^16 .. 2^20 channels (powers of two and their neighbours)
+// while single samples are appended: ceil(Len / channels) whatever the channel count
+func wideLength(g *Kern) {
+	for _, ch := range []int{1 << 16, 1<<16 + 1, 1 << 17, 1<<17 - 1, 1 << 18, 1 << 20} {
+		bad := ""
+		p := try(func() {
+			b := signal.Alloc[int8](signal.Allocator{Channels: ch, Length: 1, Capacity: 3})
+			for k := 0; k <= 2 && bad == ""; k++ {
+				n := ch + k
+				if b.Len() != n || b.Length() != (n+ch-1)/ch || b.Capacity() != 3 {
+					bad = fmt.Sprintf("after %d appends: Len=%d Length=%d Capacity=%d want Length=%d", k, b.Len(), b.Length(), b.Capacity(), (n+ch-1)/ch)
+				}
+				b.AppendSample(1)
+			}
+		})
+		if p != "" {
+			bad = "panic=" + strings.ReplaceAll(p, " ", "_")
+		}
+		g.goref("C04,C01", "huge-length", strings.ReplaceAll(bad, " ", "_"), fmt.Sprintf("kind=i8 ch=%d L=1 K=3", ch))
+	}
+}
+
 func genHugeLength(g *Kern, r *Rng, tier string) {
+	wideLength(g)
 	if !memRoom(1 << 30) {
 		g.st.branch("huge-screen-skipped-for-lack-of-memory")
 		return
@@ -460,10 +483,6 @@ func genGiant(g *Kern, props string) {
 		big.AppendSample(5)
 		if bad == "" && (big.Len() != n+1 || big.Length() != n+1 || big.Sample(n) != 5) {
 			bad = fmt.Sprintf("after AppendSample: Len=%d Length=%d", big.Len(), big.Length())
-		}
-		st := signal.Alloc[int8](signal.Allocator{Channels: 2, Length: n/2 + 3, Capacity: n/2 + 3})
-		if bad == "" && (st.Len() != 2*(n/2+3) || st.Length() != n/2+3 || st.Capacity() != n/2+3) {
-			bad = fmt.Sprintf("stereo: Len=%d Length=%d Capacity=%d", st.Len(), st.Length(), st.Capacity())
 		}
 		w := big.Slice(n-4, n)
 		if bad == "" && (w.Length() != 4 || w.Capacity() != 6) {
